@@ -231,6 +231,20 @@ def _remap(run, P, f, defs, isel):
         run.incomplete("F-TABLE/subgrid-remap", c0, where(f), "CONNECTIVITY_NAMES not found in conventions/ugrid.py")
         return
     names = sorted(set(names) | {"hole_edge_indices"})
+    # variables that are functions of BOTH faces of an edge: their values change on the subset's new boundary, so they must be dropped (recomputed lazily)
+    ADJACENCY = ["edge_face_distances"]
+    for nm in ADJACENCY:
+        c = f"{f.key}:route[{nm}]"
+        routed = None
+        for test, kind, node in branches:
+            r = True if test is None else _eval_name_pred(test, var, nm)
+            if r:
+                routed = (kind, node)
+                break
+        if routed is not None and routed[0] == "drop":
+            run.holds("F-TABLE/subgrid-remap", c, where(f, routed[1]), f"{nm} (depends on both faces of an edge) is dropped and recomputed for the subset")
+        else:
+            run.violation("F-TABLE/subgrid-remap", c, where(f, loop), f"{nm} is carried over to the subset: an edge that lost one of its faces keeps the distance between the source grid's two faces instead of 0")
     run.stats["index_valued_schema_variables"] = names
     for nm in names:
         c = f"{f.key}:route[{nm}]"
